@@ -72,10 +72,14 @@ type Engine struct {
 	// UsedContracts: contracts applied at call sites (the callers were checked against these, not against bodies)
 	UsedContracts map[string]bool
 
-	fresh         int
-	litSig        *types.Signature            // signature of the function literal being executed
-	litArgs       [][]Val                     // arguments of the enclosing function literals, outermost first
-	finals        map[string]Val              // values of mutated arguments after the call being applied
+	fresh   int
+	litSig  *types.Signature // signature of the function literal being executed
+	litArgs [][]Val          // arguments of the enclosing function literals, outermost first
+	finals  map[string]Val   // values of mutated arguments after the call being applied
+	// ArgOwnership (Layer D): maps and slices are modelled as values; the model is kept honest by
+	// obligations that an in-place write goes to a parameter only under "mutates-arg" and that an
+	// argument the callee mutates is owned by the caller (made here, or itself a mutates-arg parameter)
+	ArgOwnership  bool
 	localGhost    map[string]bool             // "local-ghost" history variables of the function under verification
 	ghostMod      map[string]bool             // ghost state assigned by callees (over-approximated per function)
 	fieldW        map[int]bool                // field indices written in the function (loop frames)
